@@ -28,7 +28,29 @@ let string_of_pc p = match p with
 let mk_lk s p r = { shared = nat_of_int (int_of_string s); pending = tok_bool p; reserved = tok_bool r }
 let string_of_lk l = Printf.sprintf "%d,%s,%s" (int_of_nat l.shared) (bool_tok l.pending) (bool_tok l.reserved)
 
+(* pagescript <pageSize> <fresh|existing> <disk hex> ops...   ops: setb:<hex> load mod:<off>:<hex> bytes flush free
+   output: one token per op *)
+let perr_string e = match e with EInvalidOp -> "EInvalidOp" | EInvalidParam -> "EInvalidParam" | ETxFinished -> "ETxFinished" | ETxReadOnly -> "ETxReadOnly"
+let pagescript (a : string list) : string =
+  match a with
+  | ps :: kind :: disk :: ops ->
+    let ps = nat_of_int (int_of_string ps) in
+    let st = ref (if kind = "fresh" then fresh_page else existing_page (bytes_of_tok disk)) in
+    String.concat " " (List.map (fun o ->
+      match String.split_on_char ':' o with
+      | ["setb"; h] -> (match page_set_bytes ps !st (bytes_of_tok h) with POk p -> st := p; "ok" | PErr e -> perr_string e)
+      | ["load"] -> (match page_load ps !st with POk p -> st := p; "ok" | PErr e -> perr_string e)
+      | ["mod"; off; h] -> (match page_modify !st (nat_of_int (int_of_string off)) (bytes_of_tok h) with POk p -> st := p; "ok" | PErr e -> perr_string e)
+      | ["bytes"] -> (match page_bytes !st with POk b -> tok_of_bytes b | PErr e -> perr_string e)
+      | ["flush"] -> (match page_flush !st with
+                      | POk (p, w) -> st := p; (match w with Some b -> "w" ^ tok_of_bytes b | None -> "nop")
+                      | PErr e -> perr_string e)
+      | ["free"] -> (match page_free !st with POk p -> st := p; "ok" | PErr e -> perr_string e)
+      | _ -> failwith ("bad page op " ^ o)) ops)
+  | _ -> failwith "args"
+
 let register (reg : string -> (string list -> string) -> unit) =
+  reg "pagescript" pagescript;
   (* lockscript s p r op... : per op the new state, or B when the op would block (state unchanged) *)
   reg "lockscript" (fun a -> match a with
     | s :: p :: r :: ops ->
